@@ -28,6 +28,9 @@ int64_t g_now      = 0;
 bool    g_skew_armed = false;
 int64_t g_lock_now   = 0;
 long    g_skew_fired = 0;
+long    g_lock_calls = 0; // acquisitions of a pthread mutex lying inside the active container object
+const char* g_obj_lo = nullptr; // address range of the container the current call is made on
+const char* g_obj_hi = nullptr;
 static unsigned g_seed = 12345;
 } // namespace hv
 
@@ -52,6 +55,10 @@ extern "C" int pthread_mutex_lock(pthread_mutex_t* m)
     using fn_t        = int (*)(pthread_mutex_t*);
     static fn_t real = reinterpret_cast<fn_t>(dlsym(RTLD_NEXT, "pthread_mutex_lock"));
     int         rc   = real(m);
+    // only the container's own mutex counts (libstdc++'s debug mode locks a registry mutex around iterators)
+    const char* a = reinterpret_cast<const char*>(m);
+    if (!(hv::g_obj_lo && a >= hv::g_obj_lo && a < hv::g_obj_hi)) return rc;
+    ++hv::g_lock_calls;
     if (hv::g_skew_armed)
     {
         if (hv::g_now != hv::g_lock_now) ++hv::g_skew_fired;
@@ -116,6 +123,11 @@ struct Rec
 static std::string exec(IC& c, const Rec& r)
 {
     const auto& t = r.t;
+    {
+        auto ext = c.extent();
+        g_obj_lo = static_cast<const char*>(ext.first);
+        g_obj_hi = g_obj_lo + ext.second;
+    }
     g_now         = r.entry >= 0 ? r.entry : r.now;
     g_lock_now    = r.now;
     g_skew_armed  = r.entry >= 0;
@@ -246,6 +258,27 @@ int main(int argc, char** argv)
                     if (i) rnd += ",";
                     rnd += std::to_string(dist(mirror));
                 }
+            }
+            if (cfg.skew && cfg.ts)
+            {
+                // the skew is only meaningful if the container's lock goes through pthread_mutex_lock (std::mutex):
+                // probe it; otherwise run the script unskewed
+                long before;
+                {
+                    auto probe = make(cfg);
+                    auto ext   = probe->extent();
+                    g_obj_lo   = static_cast<const char*>(ext.first);
+                    g_obj_hi   = g_obj_lo + ext.second;
+                    before     = g_lock_calls;
+                    (void)probe->size();
+                    g_obj_lo = g_obj_hi = nullptr;
+                }
+                if (g_lock_calls == before)
+                {
+                    cfg.skew = false;
+                    std::fprintf(stderr, "@noskew\n");
+                }
+                g_live = 0; g_live_min = 0;
             }
             out += "cfg " + cfg.kind + " " + std::to_string(cfg.cap) + " " + std::to_string(cfg.ttl_ms) + " " +
                    std::to_string(cfg.tick_ms) + " " + std::to_string(cfg.num) + " " + std::to_string(cfg.den) + " " +
